@@ -2,8 +2,8 @@
   Driver op `subset` (C10): one decoded message, several index collections.
   request : {"op":"subset","msg":[[{"name":..,"type":..,"value":..},..],..],"idxs":[[..],..]}
             value: a JSON integer -> `.int`; for type `template_data` a list of lists of cells
-            -> `.data`; anything else is opaque JSON (`.opaque`)
-  response: {"n": n_subsets or null, "r":[ <encoder input as nested lists> | "err:<family>" ...],
+            -> `.data`; anything else is opaque JSON (`.other`)
+  response: {"n": n_subsets or null, "wf": hypotheses hn/hwf of the theorems hold, "r":[ <encoder input as nested lists> | "err:<family>" ...],
              "sel":[ sorted distinct indices per collection (Spec) ]}
 -/
 import BufrModel.Msg.Subset
@@ -27,15 +27,15 @@ def parseParam (j : Json) : J (Param Json Json) := do
     | .arr rows =>
       let rs ← rows.toList.mapM asList
       pure { name, type, value := .data rs }
-    | _ => pure { name, type, value := .opaque v }
+    | _ => pure { name, type, value := .other v }
   else
     match isIntJson v with
     | some n => pure { name, type, value := .int n }
-    | none => pure { name, type, value := .opaque v }
+    | none => pure { name, type, value := .other v }
 
 def pvalJ : PVal Json Json → Json
   | .int n => jint n
-  | .opaque v => v
+  | .other v => v
   | .data rows => jarr (rows.map jarr)
 
 def opSubset (j : Json) : J Json := do
@@ -52,6 +52,10 @@ def opSubset (j : Json) : J Json := do
     out := out ++ [r]
     sels := sels ++ [jarr ((Spec.sortedDistinct idxs).map jint)]
   let n := match m.nSubsets? with | some n => jint n | none => Json.null
-  pure (jobj [("n", n), ("r", jarr out), ("sel", jarr sels)])
+  -- the hypotheses of the C10 theorems, evaluated on this message
+  let wf := match m.nSubsets? with
+    | some n => decide (0 ≤ n) && m.wf n.toNat
+    | none => false
+  pure (jobj [("n", n), ("wf", Json.bool wf), ("r", jarr out), ("sel", jarr sels)])
 
 end Bufr.Drv
